@@ -27,6 +27,9 @@ def run(prop, tier, seed, work, ev):
     # over a per-element temporary): judged against Eval, which is compositional by construction (MC_Eval_laws)
     import eng_eval
     rej = rej + eng_eval.pool_families(["bool", "inflate", "hash"], work, ev, drv)
+    c3 = work.path("preds.cases")
+    eng_eval.gen(work, "preds", c3)
+    rej = rej + eng_eval.run_and_judge("filter predicates that are chains themselves", c3, work, ev, drv, docs=c3 + ".docs", nsamples=1)
     c2 = work.path("chains.cases")
     eng_eval.gen(work, "chains", c2, n=3)
     rej = rej + eng_eval.run_and_judge("operator chains (pipes, filters with inner projections, boolean operators among the links) x 4 nested documents",
